@@ -195,6 +195,14 @@ def oracle(run: runner.Run, oc: Outcome) -> None:
                            and b.get('name') == a.get('ns')])
             pauses.append((a['t'], t_off))
     paused_now = any(t_on <= t_end and t_off + SETTLE >= t_end for t_on, t_off in pauses)
+    # with mandatory peering an operator stays paused for as long as a served namespace has no peering object yet
+    if plan.get('peering') and patterns is not None and spec.get('peering_name'):
+        from kopfsim import cluster as cl_
+        for nsobj in run.cluster.list(cl_.NAMESPACES, None):
+            nsname = nsobj['metadata']['name']
+            if any(_match_ns(nsname, p) for p in patterns) and \
+                    run.cluster.get(run.rdef('kopfpeerings'), nsname, spec['peering_name']) is None:
+                paused_now = True
 
     unknown_error_at = min([e[1] for e in trace if e[2] == 'act' and e[3] == 'stream-error'
                             and any(a['do'] == 'stream-error' and a.get('code') != 410 and abs(a['t'] - e[1]) < 1e-9
@@ -341,7 +349,10 @@ def oracle(run: runner.Run, oc: Outcome) -> None:
                 yielded = [e for e in trace if e[2] == 'yield' and e[3] == actor and e[4] == kind and e[7] == meta['uid']]
                 newest = max((int(e[8]) for e in yielded if e[8] is not None), default=-1)
                 if newest < int(meta['resourceVersion']):
-                    oc.add('C19/skipped-change', 'stale-at-quiescence',
+                    exits_ = [e for e in trace if e[2] == 'watch-exit' and e[3] == actor and e[4] == kind
+                              and e[5] == (ns if patterns is not None else None)]
+                    died = bool(exits_) and str(exits_[-1][6]).startswith('error:')
+                    oc.add('C19/skipped-change', 'stale-after-watcher-failed' if died else 'stale-at-quiescence',
                            f"{kind} {ns}/{meta['name']} is at resourceVersion {meta['resourceVersion']} but the newest "
                            f"state handed to processing is {newest if newest >= 0 else None} at the settled end",
                            uid=meta['uid'])
